@@ -91,13 +91,13 @@ def mirror(ctx, R="R-C02-mirror"):
     w = m["while"]
     R2 = "R-C02-walk"
     ctx.check(astq.in_texts(w.test, ("consumed<trunc_len", "trunc_len>consumed", "consumed<len(truncated_filt)",)), R2, f, w,
-              "the walk continues until the truncated filter is consumed", "walk condition is %s" % astq.text(w.test))
+              "the walk continues until the truncated filter is consumed", "walk condition is %s" % astq.text(w.test), structural=True)
     alt = [s for s in w.body if isinstance(s, ast.Assign) and astq.is_name(s.targets[0], "conjugate")]
     ctx.check(len(alt) == 1 and astq.text(alt[0].value) == "not conjugate", R2, f, alt[0] if alt else MISSING(w),
-              "direct and mirrored segments alternate", "alternation is %s" % (astq.text(alt[0].value) if alt else None))
+              "direct and mirrored segments alternate", "alternation is %s" % (astq.text(alt[0].value) if alt else None), structural=True)
     clamp = [s for s in w.body if isinstance(s, ast.Assign) and astq.is_name(s.targets[0], "start_idx")]
     ctx.check(len(clamp) == 1 and astq.in_texts(clamp[0].value, ("max(0,start_idx)", "max(start_idx,0)",)), R2, f,
-              clamp[0] if clamp else MISSING(w), "the next start bin is clamped at 0", "start-bin clamp is %s" % (astq.text(clamp[0].value) if clamp else None))
+              clamp[0] if clamp else MISSING(w), "the next start bin is clamped at 0", "start-bin clamp is %s" % (astq.text(clamp[0].value) if clamp else None), structural=True)
     # initial state of the walk, per filter
     pm = astq.parents(f)
     loop = [a for a in astq.ancestors(pm, w) if isinstance(a, ast.For)]
@@ -108,10 +108,10 @@ def mirror(ctx, R="R-C02-mirror"):
     ctx.check(ok, R2, f, loop[0], "each filter starts a fresh walk at its own start bin with its own truncated response",
               "per-filter initialisation is %s" % inits)
     ctx.check(astq.in_texts(loop[0].iter, ("range(len(self._filt_start_idxs))", "range(len(self._truncated_filts))", "range(self._bank.num_filts)",)),
-              R2, f, loop[0], "every filter of the bank is visited in order", "filter loop iterates %s" % astq.text(loop[0].iter))
+              R2, f, loop[0], "every filter of the bank is visited in order", "filter loop iterates %s" % astq.text(loop[0].iter), structural=True)
     st = [s for s in loop[0].body if isinstance(s, ast.Assign) and astq.text(s.targets[0]) == "coeffs[filt_idx]"]
     ctx.check(len(st) == 1 and astq.text(st[0].value) == "val", R2, f, st[0] if st else MISSING(loop[0]), "coefficient i is stored at index i",
-              "coefficient store is %s" % (astq.text(st[0]) if st else None))
+              "coefficient store is %s" % (astq.text(st[0]) if st else None), structural=True)
 
 
 def frame_routine(ctx):
@@ -161,9 +161,9 @@ def frame_routine(ctx):
               "non-linearity selection is not `_power if use_power else _mag`")
     pw, mg = prog.func("compute._power"), prog.func("compute._mag")
     ctx.check(astq.in_texts(astq.returns_of(pw)[0].value, ("np.linalg.norm(x,ord=2)**2", "np.sum(np.abs(x)**2)",)), R2, pw, pw.node,
-              "_power is the sum of squared moduli", "_power is %s" % astq.text(astq.returns_of(pw)[0].value))
+              "_power is the sum of squared moduli", "_power is %s" % astq.text(astq.returns_of(pw)[0].value), structural=True)
     ctx.check(astq.in_texts(astq.returns_of(mg)[0].value, ("np.sum(np.abs(x))", "np.abs(x).sum()",)), R2, mg, mg.node,
-              "_mag is the sum of moduli", "_mag is %s" % astq.text(astq.returns_of(mg)[0].value))
+              "_mag is the sum of moduli", "_mag is %s" % astq.text(astq.returns_of(mg)[0].value), structural=True)
     # energy
     R3 = "R-C02-energy"
     for power in (True, False):
